@@ -39,7 +39,7 @@ ConsumedOnce ==
   \A c \in {"Bucket", "Proof", "AddressReservation"} :
     \A j \in 1..Len(ins) : \A id \in Consumes(ins[j], c) : \A x \in (j + 1)..Len(ins) : id \notin Mentions(ins[x], c)
 NamesComplete ==
-  \A s \in {"default", "uni", "quote"} :
+  \A s \in {"default", "uni", "quote", "ch12"} :
     LET e == ExpectedNames(st, s) c == Counts(st) IN
       \A cl \in DOMAIN Prefix : Len(e[cl]) = c[cl] /\ \A a, b \in 1..Len(e[cl]) : e[cl][a] = e[cl][b] => a = b
 LengthBound == Len(ins) <= K
@@ -79,5 +79,7 @@ ASSUME ShapeLaws ==
   /\ \A j \in 1..NLeaves : Shape(j) = Leaves[j]
   /\ \A w \in LinearWraps : CountIn(Wrap(w, Leaf("Bucket", "", 3)), "Bucket", 3) = 1
   /\ \E j \in (NShapes1 + NShapes2 + 1)..(NShapes1 + NShapes2 + 200) : Nodes(Shape(j)) >= 5
-  /\ NLeaves = 117 /\ NShapes = 117 * 111
+  /\ NLeaves = 117 + Len(SpecialChars) /\ Len(SpecialChars) = 74 /\ NShapes = NLeaves * 111
+  /\ \A n \in (0..31) \cup {127} \cup (128..159) : \E i \in 1..Len(SpecialChars) : SpecialChars[i] = CP8(n)
+  /\ \A v \in RequiredVariants : \E j \in 1..NLeaves : Variant(Leaves[j]) = v \/ v \in {"Address:Named", "Bucket", "Proof", "AddressReservation"}
 =============================================================================
